@@ -195,13 +195,24 @@ def ite_dict(i, d, default):
 
     # otherwise, binary search.
     # Find the median:
-    keys = list(d.keys())
-    keys.sort()
+    # (the tree branches on unsigned comparisons with i, so integer keys are ordered by the bit pattern they have at
+    # i's width: -1 is the largest key, not the smallest)
+    if isinstance(i, Base) and getattr(i, "length", None) is not None:
+        modulus = 1 << i.length
+
+        def pattern(c):
+            return c % modulus if isinstance(c, int) else c
+    else:
+
+        def pattern(c):
+            return c
+
+    keys = sorted(pattern(c) for c in d)
     split_val = keys[(len(keys) - 1) // 2]
 
     # split the dictionary
-    dictLow = {c: v for c, v in d.items() if c <= split_val}
-    dictHigh = {c: v for c, v in d.items() if c > split_val}
+    dictLow = {c: v for c, v in d.items() if pattern(c) <= split_val}
+    dictHigh = {c: v for c, v in d.items() if pattern(c) > split_val}
 
     valLow = ite_dict(i, dictLow, default)
     valHigh = ite_dict(i, dictHigh, default)
